@@ -231,7 +231,12 @@ class _ManifoldDynamicsService(_DynamicsServiceBase):
         Tuple[np.ndarray, np.ndarray, np.ndarray, np.ndarray]
             The stm of the manifold.
         """
-        cache_key = self.make_key(id(self.orbit), steps, self.forward)
+        # The monodromy matrix and the STM history are always those of the
+        # forward flow, for both branches: the stable direction is the
+        # eigenvector of Phi(T) with |lambda| < 1 and is carried along the
+        # orbit by Phi(t), exactly like the unstable one.  Only the branch
+        # trajectories themselves are integrated backward (see _run_compute).
+        cache_key = self.make_key(id(self.orbit), steps)
         
         def _factory() -> Tuple[np.ndarray, np.ndarray, np.ndarray, np.ndarray]:
             return _compute_stm(
@@ -239,7 +244,7 @@ class _ManifoldDynamicsService(_DynamicsServiceBase):
                 self.orbit.initial_state,
                 self.period,
                 steps=steps,
-                forward=self.forward,
+                forward=1,
             )
         
         return self.get_or_create(cache_key, _factory)
